@@ -1,8 +1,9 @@
 (* C17 driver:
-   (case ID (opts REAL STATE QUERY GROUP COLLAPSE SORT HEAD TAIL) (posts POST...))
-     QUERY = hex | "-"; GROUP = none|sub|payee|dow; COLLAPSE = depth | "-";
+   (case ID (opts REAL STATE QUERY PQUERY GROUP COLLAPSE SORT HEAD TAIL) (posts POST...))
+     QUERY (account pattern), PQUERY (payee pattern) = hex | "-"; GROUP = none|sub|payee|dow; COLLAPSE = depth | "-";
      SORT = "-" | ((INV KEY)...) with KEY = date|payee|account|amount; HEAD, TAIL = int | "-"
-     POST = (XID DATE PAYEEHEX ACCTHEX VIRT STATE NUM DEN PREC SYMHEX)
+     POST = (XID DATE PAYEEHEX XPAYEEHEX ACCTHEX VIRT STATE NUM DEN PREC SYMHEX)
+            PAYEE = post_t::payee() of the posting, XPAYEE = the payee of its transaction
    -> "ID OK row;row;..." | "ID UNSPEC" | "ID ERR"
       row = xid|date|payee|accthex|amount|total ; payee = N:hex | U:days | W:k *)
 let show_amt (a : amount) : string =
@@ -22,10 +23,11 @@ let show_value = function
 let opt_z a = if a = "-" then None else Some (z_of_string a)
 
 let post_of = function
-  | L [xid; d; py; ac; virt; st; n; dn; pr; sym] ->
+  | L [xid; d; py; xpy; ac; virt; st; n; dn; pr; sym] ->
     let c = (if atom sym = "-" then None else Some (str_of_hex (atom sym))) in
     { pxact = zatom xid; pdate = zatom d; pvdate = zatom d;
       ppayee = PName (if atom py = "-" then [] else str_of_hex (atom py));
+      pxpayee = PName (if atom xpy = "-" then [] else str_of_hex (atom xpy));
       pacct = str_of_hex (atom ac); pvirt = batom virt; pstate = zatom st;
       pamt = VAmt { aq = h_qmake (zatom n) (zatom dn); aprec = zatom pr; akeep = false; acomm = c } }
   | _ -> failwith "post"
@@ -45,9 +47,10 @@ let show_row (p, t) =
 
 let handle line =
   match parse_sexp line with
-  | L [A "case"; A id; L [A "opts"; real; st; q; A grp; A coll; srt; A hd; A tl]; L (A "posts" :: posts)] ->
+  | L [A "case"; A id; L [A "opts"; real; st; q; pq; A grp; A coll; srt; A hd; A tl]; L (A "posts" :: posts)] ->
     let f = { f_real = batom real; f_state = zatom st;
-              f_query = (if atom q = "-" then None else Some (str_of_hex (atom q))) } in
+              f_query = (if atom q = "-" then None else Some (str_of_hex (atom q)));
+              f_payee = (if atom pq = "-" then None else Some (str_of_hex (atom pq))) } in
     let g = (match grp with "none" -> GNone | "sub" -> GSubtotal | "payee" -> GByPayee
                           | "dow" -> GDow | _ -> failwith "group") in
     let s = (match srt with
